@@ -15,7 +15,7 @@ func init() { register("C13", "other", checkC13) }
 
 func checkC13(w *World, r *Result) {
 	r.Explanation = "Decides structural necessary conditions on analysis/httpapi: AGR-C13a every types.Type-typed contract slot that resolveTypes resolves back through the shared analysis is also collected into the list that analysis is built from (else the slot stays nil unless another route mentions the type); AGR-C13b every exported field of Endpoint/Contract/Form/TypedParam has a writer in httpapi and a reader in the TypeScript client generator; SHP-C13v the verb set contains GET, PUT, POST, DELETE; SHP-C13n a registration is skipped by arity only when it has fewer than two arguments; SHP-C13p between URL resolution and the append the only filter is the prefix test; SHP-C13h the handler resolution covers method/package selector, identifier and function literal, and a declared handler's body is selected by its declaration position (unique), not by name; SHP-C13o endpoints are only appended, inside one syntax walk that does not descend into a recorded registration (source order, one entry each); SHP-C13r the return statement parser reads JSON/JSONPretty's 2nd and Blob's 3rd argument and sets the blob flag with it; OBL-* no unguarded partial operation in the package. Does not decide: one entry per registration and constant folding as value-level facts about arbitrary programs."
-	r.Rules = []string{"AGR-C13a", "AGR-C13b", "SHP-C13v", "SHP-C13n", "SHP-C13p", "SHP-C13h", "SHP-C13o", "SHP-C13r", "SHP-C13g", "SHP-C13q", "OBL-*", "MEMO-KEY", "PKG-ID", "ALIAS-APPEND", "STATE-PKG"}
+	r.Rules = []string{"AGR-C13a", "AGR-C13b", "SHP-C13v", "SHP-C13n", "SHP-C13p", "SHP-C13h", "SHP-C13o", "SHP-C13r", "SHP-C13g", "SHP-C13q", "SHP-C13e", "SHP-C13s", "SHP-C13u", "OBL-*", "MEMO-KEY", "PKG-ID", "ALIAS-APPEND", "STATE-PKG"}
 	statePkgRule(w, r, func(rel string) bool { return rel == "analysis/httpapi" || rel == "analysis" })
 	aliasAppendRule(w, r, func(rel string) bool { return rel == "analysis/httpapi" })
 	memoKeyRule(w, r, func(rel string) bool { return rel == "analysis/httpapi" })
@@ -25,6 +25,9 @@ func checkC13(w *World, r *Result) {
 	checkExtractShape(w, r)
 	checkGenericForms(w, r)
 	checkResolvedPackage(w, r)
+	checkEvalScope(w, r)
+	checkAnonymousNames(w, r)
+	checkContractOrder(w, r)
 	checkResolveFunc(w, r)
 	checkReturnParser(w, r)
 	for _, o := range runOBL(w, func(rel string) bool { return rel == "analysis/httpapi" }) {
@@ -785,5 +788,130 @@ func checkResolvedPackage(w *World, r *Result) {
 	visit(fi.Decl.Body.List)
 	if n == 0 {
 		Undecided("SHP-C13q: parseEndpointFunc no longer calls resolveFunc")
+	}
+}
+
+// checkEvalScope (SHP-C13e): a path, parameter or form name is folded by types.Eval at the position of the
+// expression, i.e. in its innermost scope: a local constant shadows a package-level one of the same name.
+// Obligations: every types.Eval call of package httpapi: its position argument is <expr>.Pos() of the folded
+// expression (token.NoPos evaluates at package scope and silently picks the shadowed constant).
+func checkEvalScope(w *World, r *Result) {
+	n := 0
+	for _, fi := range sortedFuncs(w) {
+		if w.Rel(fi.Obj.Pkg()) != "analysis/httpapi" || fi.Decl.Body == nil {
+			continue
+		}
+		info := fi.Pkg.TypesInfo
+		ast.Inspect(fi.Decl.Body, func(x ast.Node) bool {
+			call, ok := x.(*ast.CallExpr)
+			if !ok || fullName(calleeOf(info, call)) != "go/types.Eval" || len(call.Args) != 4 {
+				return true
+			}
+			n++
+			good := false
+			if pc, ok := ast.Unparen(call.Args[2]).(*ast.CallExpr); ok {
+				if sel, ok := pc.Fun.(*ast.SelectorExpr); ok && sel.Sel.Name == "Pos" {
+					if t := info.TypeOf(sel.X); t != nil && strings.HasPrefix(t.String(), "go/ast.") {
+						good = true
+					}
+				}
+			}
+			r.cond(good, "SHP-C13e", fi.Name, "types.Eval at "+es(call.Args[2]), w.Pos(call.Pos()),
+				"evaluated at the position of the expression: local constants are visible and shadow package-level ones",
+				"the expression is evaluated at `"+es(call.Args[2])+"` instead of its own position: at package scope a local constant is invisible, and when a package-level constant has the same name its value is silently used (wrong URL or parameter name)")
+			return true
+		})
+	}
+	if n == 0 {
+		Undecided("SHP-C13e: package httpapi no longer calls types.Eval")
+	}
+}
+
+// checkContractOrder (SHP-C13s): the parameters of a contract are recorded in source order: every append to a
+// list of the contract made while reading the right-hand sides of an assignment sits in a loop over those
+// right-hand sides that is not nested in another loop (a loop over accessor names outside it groups the
+// parameters by accessor instead).
+func checkContractOrder(w *World, r *Result) {
+	fi := w.MustFunc("analysis/httpapi.parseAssignments")
+	info := fi.Pkg.TypesInfo
+	n := 0
+	for _, as := range appendStmts(info, fi.Decl.Body, "") {
+		if !strings.Contains(es(as.Lhs[0]), "InputQueryParams") && !strings.Contains(es(as.Lhs[0]), "ValueNames") {
+			continue
+		}
+		n++
+		depth := 0
+		var outer ast.Node
+		ast.Inspect(fi.Decl.Body, func(x ast.Node) bool {
+			switch l := x.(type) {
+			case *ast.RangeStmt:
+				if l.Body.Pos() <= as.Pos() && as.End() <= l.Body.End() {
+					depth++
+					if outer == nil {
+						outer = l
+					}
+				}
+			case *ast.ForStmt:
+				if l.Body.Pos() <= as.Pos() && as.End() <= l.Body.End() {
+					depth++
+					if outer == nil {
+						outer = l
+					}
+				}
+			}
+			return true
+		})
+		overParam := false
+		if rs, ok := outer.(*ast.RangeStmt); ok {
+			if id := identOf(rs.X); id != nil {
+				for _, f := range fi.Decl.Type.Params.List {
+					for _, nm := range f.Names {
+						if info.Defs[nm] == objOf(info, id) {
+							overParam = true
+						}
+					}
+				}
+			}
+		}
+		r.cond(depth == 1 && overParam, "SHP-C13s", fi.Name, "append to "+es(as.Lhs[0])+" in source order", w.Pos(as.Pos()),
+			"one pass over the right-hand sides, in their order",
+			"the parameters are appended inside nested loops (the outer one does not range over the right-hand sides): they come out grouped by the outer loop's variable instead of in source order")
+	}
+	if n == 0 {
+		Undecided("SHP-C13s: parseAssignments no longer appends query parameters")
+	}
+}
+
+// checkAnonymousNames (SHP-C13u): a function-literal handler is named after something that is unique among the
+// handlers of a file and stable between loads: the byte offset of the literal in its file
+// (`Fset.Position(pos).Offset`). The line is not unique (two literals on one line get one method name, and the
+// later definition silently replaces the earlier one in the generated client); the raw token.Pos is not stable.
+func checkAnonymousNames(w *World, r *Result) {
+	fi := w.MustFunc("analysis/httpapi.parseEndpointFunc")
+	info := fi.Pkg.TypesInfo
+	n := 0
+	ast.Inspect(fi.Decl.Body, func(x ast.Node) bool {
+		call, ok := x.(*ast.CallExpr)
+		if !ok || fullName(calleeOf(info, call)) != "fmt.Sprintf" || len(call.Args) != 2 {
+			return true
+		}
+		tv := info.Types[call.Args[0]]
+		if tv.Value == nil || !strings.HasPrefix(constant.StringVal(tv.Value), "Anonymous") {
+			return true
+		}
+		n++
+		good := false
+		if sel, ok := ast.Unparen(call.Args[1]).(*ast.SelectorExpr); ok && sel.Sel.Name == "Offset" {
+			if t := info.TypeOf(sel.X); t != nil && t.String() == "go/token.Position" {
+				good = true
+			}
+		}
+		r.cond(good, "SHP-C13u", fi.Name, "name of a function-literal handler from "+es(call.Args[1]), w.Pos(call.Pos()),
+			"the offset of the literal in its file: unique per literal, the same on every load",
+			"the name of a function-literal handler is derived from `"+es(call.Args[1])+"`, which is not the file offset of the literal: two literals can share it (same line), so two endpoints get one method name and the client calls the wrong route")
+		return true
+	})
+	if n == 0 {
+		Undecided("SHP-C13u: no `Anonymous%%d` name found in parseEndpointFunc")
 	}
 }
